@@ -182,8 +182,9 @@ def make(with_rst):
         c.inv("done_means_phy_register_written", z3.Implies(done, z3.If(sel04, r04 == rq04, r0a == rq0a)))
         c.inv("shadow04_tracks_phy", z3.Or(sh04 == r04, z3.And(done, sel04)))
         c.inv("shadow0a_tracks_phy", z3.Or(sh0a == r0a, z3.And(done, sel0a)))
-        c.inv("sampled_fc_request_was_requested", z3.Implies(rq04 == v, z3.Or(ever04 == 1, r04 == v)) if fixed else z3.BoolVal(True))
-        c.inv("sampled_otg_request_was_requested", z3.Implies(rq0a == v, z3.Or(ever0a == 1, r0a == v)) if fixed else z3.BoolVal(True))
+        # (the value the link works with was requested at some point since that register's last write -- or is requested right now)
+        c.inv("sampled_fc_request_was_requested", z3.Implies(rq04 == v, z3.Or(ever04 == 1, r04 == v, req04 == v)) if fixed else z3.BoolVal(True))
+        c.inv("sampled_otg_request_was_requested", z3.Implies(rq0a == v, z3.Or(ever0a == 1, r0a == v, req0a == v)) if fixed else z3.BoolVal(True))
         # bounded response bookkeeping
         coop = z3.And(z3.Not(dirb), z3.Or(nxtb, z3.And(ph == IDLE, cmd2 == 0), ph == RWS))
         w = c.ghost("coop_run", 3, init=0)          # consecutive cooperative cycles spent in a write before its STP cycle
@@ -232,8 +233,10 @@ def make(with_rst):
                  clause="the link eventually writes the new values: a pending change starts a write as soon as no transmission "
                         "is requested (one-step progress)")
         if fixed:
-            c.ensure("change_is_noticed", z3.Implies(z3.And(W("IDLE"), of(win.write_request) == 0), z3.And(n(rq04) == req04, n(rq0a) == req0a)),
-                     clause="whenever the control inputs change ...: the request is sampled in every cycle in which no write is in progress")
+            # (the request is either taken over combinationally in this very cycle, or sampled into a register for the next)
+            c.ensure("change_is_noticed", z3.Implies(z3.And(W("IDLE"), of(win.write_request) == 0, z3.Not(done)),
+                                                     z3.And(z3.Or(rq04 == req04, n(rq04) == req04), z3.Or(rq0a == req0a, n(rq0a) == req0a))),
+                     clause="whenever the control inputs change ...: the request is taken over in every cycle in which no write is in progress")
         c.ensure("write_completes_within_4_cooperative_cycles", z3.And(z3.ULE(w, 3), z3.Implies(w == 3, W("STOPPING"))),
                  clause="BOUNDED RESPONSE under PHY fairness: a started register write completes once the PHY has been cooperative "
                         "(DIR low, NXT for each presented byte) for 4 consecutive cycles: after 3 such cycles it is in its STP cycle, "
